@@ -108,6 +108,22 @@ func (r *Runner) RunHarness(h *Harness) {
 	h.Notes = map[string]bool{}
 	h.EndKinds = map[string]int{}
 	var wg sync.WaitGroup
+	if os.Getenv("GOSMT_PROGRESS") != "" {
+		stopTick := make(chan struct{})
+		defer close(stopTick)
+		go func() {
+			for {
+				select {
+				case <-stopTick:
+					return
+				case <-time.After(10 * time.Second):
+					h.mu.Lock()
+					fmt.Fprintf(os.Stderr, "progress %s: paths=%d queue=%d active=%d queries=%d solver=%.0fs\n", h.Name, h.Paths, len(h.queue), h.active, h.Queries, h.SolverTime.Seconds())
+					h.mu.Unlock()
+				}
+			}
+		}()
+	}
 	for w := 0; w < r.workers; w++ {
 		wg.Add(1)
 		go func() {
@@ -189,6 +205,16 @@ func (ex *Exec) runPath(r *Runner, h *Harness, prefix []decision) {
 	q0, t0 := ex.solver.Queries, ex.solver.Time
 
 	endKind, endMsg := "done", ""
+	watchdogDone := make(chan struct{})
+	if os.Getenv("GOSMT_PROGRESS") != "" {
+		go func() {
+			select {
+			case <-watchdogDone:
+			case <-time.After(60 * time.Second):
+				fmt.Fprintf(os.Stderr, "slow path (>60s) in %s: steps=%d decisions=%d at %s\n", h.Name, ex.steps, len(ex.trace), ex.stackString())
+			}
+		}()
+	}
 	func() {
 		defer func() {
 			if rec := recover(); rec != nil {
@@ -211,6 +237,7 @@ func (ex *Exec) runPath(r *Runner, h *Harness, prefix []decision) {
 		ex.eagerInits()
 		ex.callFunction(h.Fn, nil, nil)
 	}()
+	close(watchdogDone)
 	ex.cleanupGoroutines()
 
 	h.mu.Lock()
